@@ -214,6 +214,284 @@ def shrink(text, bad):
     return cur
 
 
+# ------------------------------------------------------------------ expression parser (model/ParserSkel.v)
+BINOPS = ["+", "-", "*", "/", "//", "%", "^", "**", "<<", ">>", "|", "&", "#", "||", "^@", "=", "==", "<>", "!=", "<", "<=", ">", ">=", "and", "or", "xor"]
+TYPES = ["int", "text", "varchar", "decimal", "decimal(4)", "decimal(4, 1)", "numeric(10,-2)", "decimal(99999999999999999999)", "decimal(1.5)", "bool", "date",
+         "timestamp", "float8", "uint1", "blob", "half", "interval", "decimal(", "bigint"]
+PKW = ["select", "from", "where", "as", "and", "or", "not", "is", "in", "like", "ilike", "between", "case", "when", "then", "else", "end", "null", "true", "false",
+       "distinct", "cast", "interval", "date", "year", "years", "month", "exists", "any", "all", "some", "filter", "over", "position", "substring", "for",
+       "extract", "columns", "xor", "rlike", "regexp", "similar", "with", "values", "union", "limit", "order", "by", "int", "decimal", "text", "epoch", "dow"]
+
+
+def p_ident(rng):
+    return rng.choice(["a", "b", "c1", "tbl", "\"Q\"", "\"x y\"", "é", "_z", "f", "g"])
+
+
+def p_atom(rng):
+    k = rng.below(14)
+    if k < 3:
+        return rng.choice(["1", "0", "42", "1.5", ".5", "1.", "007", "9223372036854775807"])
+    if k < 5:
+        return "'" + rng.choice(["", "x", "a b", "é", "1992-10-11", "year", "%a_"]) + "'"
+    if k < 8:
+        return p_ident(rng)
+    if k == 8:
+        return p_ident(rng) + "." + rng.choice([p_ident(rng), "*", p_ident(rng) + "." + p_ident(rng), p_ident(rng) + ".*"])
+    if k == 9:
+        return rng.choice(["null", "true", "false", "TRUE", "Null"])
+    if k == 10:
+        return rng.choice(["date '1992-10-11'", "timestamp 'x'", "int '4'", "decimal(4,1) '1.5'", "bool 'true'", "interval '1' year", "interval 2 years",
+                           "interval '1 year'", "interval 1", "interval - 1 month", "text 'a'"])
+    if k == 11:
+        return "[" + ", ".join(p_atom(rng) for _ in range(rng.below(3))) + "]"
+    if k == 12:
+        return "columns('" + rng.choice(["a.*", ""]) + "')"
+    return rng.choice(["count(*)", "f()", "now ( )"])
+
+
+def p_expr(rng, d=0):
+    k = rng.below(30)
+    if d > 3 or k < 6:
+        return p_atom(rng)
+    e = lambda: p_expr(rng, d + 1)
+    sp = lambda: rng.choice([" ", " ", "  ", "\n", " /* no */ " if False else " -- c\n"])
+    if k < 12:
+        return e() + sp() + rng.choice(BINOPS) + sp() + e()
+    if k == 12:
+        return "(" + e() + ")"
+    if k == 13:
+        return "(" + e() + ", " + e() + rng.choice(["", ", " + e(), ","]) + ")"
+    if k == 14:
+        return rng.choice(["-", "+", "~", "not ", "- ", "NOT "]) + e()
+    if k == 15:
+        return rng.choice(["f", "sum", "a.g", "count"]) + "(" + rng.choice(["", "distinct "]) + ", ".join(
+            rng.choice(["", "", "n => ", "n = "]) + e() for _ in range(rng.below(3))) + ")" + rng.choice(
+            ["", "", " filter (where " + e() + ")", " over ()", " over w", " over (partition by a)", " filter (where true) over ()"])
+    if k == 16:
+        return e() + "::" + rng.choice(TYPES)
+    if k == 17:
+        return "cast(" + e() + " as " + rng.choice(TYPES) + ")"
+    if k == 18:
+        return "case " + rng.choice(["", e() + " "]) + " ".join("when " + e() + " then " + e() for _ in range(1 + rng.below(2))) + rng.choice(["", " else " + e()]) + " end"
+    if k == 19:
+        return e() + rng.choice([" is null", " is not null", " is true", " is not false", " is distinct from " + e(), " is not distinct from " + e(), " is not", " is 1"])
+    if k == 20:
+        return e() + rng.choice([" in ", " not in "]) + "(" + ", ".join(e() for _ in range(1 + rng.below(3))) + rng.choice(["", ","]) + ")"
+    if k == 21:
+        return e() + rng.choice([" like ", " not like ", " ilike ", " not ilike ", " rlike ", " similar "]) + e()
+    if k == 22:
+        return e() + rng.choice([" between ", " not between "]) + e() + " and " + e()
+    if k == 23:
+        return e() + "[" + rng.choice([e(), e() + ":" + e(), ":" + e(), e() + ":", ":", e() + ":" + e() + ":" + e(), ""]) + "]"
+    if k == 24:
+        return rng.choice(["substring(" + e() + " from " + e() + rng.choice(["", " for " + e()]) + ")", "substring(" + e() + ", " + e() + ", " + e() + ")",
+                           "position(" + e() + " in " + e() + ")", "extract(" + rng.choice(["year", "'dow'", "epoch", "foo", "'nope'", "1"]) + " from " + e() + ")"])
+    if k == 25:
+        return rng.choice(["exists (select 1)", "not exists (select 1)", "(select 1)", e() + " in (select 1)", e() + " = any (select 1)", e() + " > all (" + e() + ")",
+                           "(values (1))", "(with x as (select 1) select 1)"])
+    if k == 26:
+        return e() + " " + rng.choice(PKW) + " " + e()
+    if k == 27:
+        return rng.choice(PKW) + " " + e()
+    return e() + rng.choice([" ,", " )", " ]", " ;", " as x", " from t", " x", ""])
+
+
+def p_soup(rng):
+    pool = BINOPS + PKW + ["(", ")", "[", "]", ",", ".", ":", "::", ";", "=>", "!", "~", "1", "'s'", "a", "\"q\"", "*", "-- c\n", "1.5"]
+    return " ".join(rng.choice(pool) for _ in range(1 + rng.below(10)))
+
+
+def p_mutate(rng, text):
+    ts = text.split(" ")
+    if not ts:
+        return text
+    i = rng.below(len(ts))
+    k = rng.below(5)
+    if k == 0:
+        del ts[i]
+    elif k == 1:
+        ts.insert(i, rng.choice(PKW + BINOPS + ["(", ")", "[", "]", ","]))
+    elif k == 2:
+        ts[i] = rng.choice(PKW + BINOPS + ["1", "a"])
+    elif k == 3:
+        ts = ts[:i]
+    else:
+        j = rng.below(len(ts))
+        ts[i], ts[j] = ts[j], ts[i]
+    return " ".join(ts)
+
+
+def p_deep(tier):
+    n = 400 if tier == "quick" else 2000
+    out = ["(" * n + "1" + ")" * n, "-" * n + "1", "- " * n, "not " * n + "true", "(" * n, "[" * n + "]" * n, "~" * n + "a" + "::int" * n,
+           "interval " * n + "1", "case when " * (n // 4) + "1" + " then 2 end" * (n // 4), "f(" * n + ")" * n, "1" + " + 1" * n, "1" + " * (1" * n + ")" * n,
+           "a" + "[1]" * n, "a" + ".b" * n, "a" + " is not null" * n, "1" + " between 1 and 2 and" * 50 + " 3", "1 in (" * n + "1" + ")" * n]
+    return out
+
+
+def canon_debug(s):
+    """derived-Debug text of the Rust AST -> canonical: tag | tag(a,b) | "<hex>" | [a,b] | int   (field names dropped)"""
+    import re as _re
+    ident = _re.compile(r"[A-Za-z_][A-Za-z_0-9]*")
+    field = _re.compile(r"[A-Za-z_][A-Za-z_0-9]*\s*:")
+    num = _re.compile(r"-?[0-9]+")
+    n = len(s)
+    pos = 0
+    ESC = {"n": "\n", "r": "\r", "t": "\t", "0": "\0", "\\": "\\", '"': '"', "'": "'"}
+
+    def ws():
+        nonlocal pos
+        while pos < n and s[pos] in " \n\t":
+            pos += 1
+
+    def seq(close):
+        nonlocal pos
+        items = []
+        while True:
+            ws()
+            if s[pos] == close:
+                pos += 1
+                return items
+            items.append(value())
+            ws()
+            if s[pos] == ",":
+                pos += 1
+
+    def value():
+        nonlocal pos
+        ws()
+        c = s[pos]
+        if c == '"':
+            pos += 1
+            buf = []
+            while s[pos] != '"':
+                if s[pos] == "\\":
+                    e = s[pos + 1]
+                    if e == "u":
+                        j = s.index("}", pos)
+                        buf.append(chr(int(s[pos + 3:j], 16)))
+                        pos = j + 1
+                        continue
+                    buf.append(ESC[e])
+                    pos += 2
+                else:
+                    buf.append(s[pos])
+                    pos += 1
+            pos += 1
+            return '"' + "".join(buf).encode("utf-8").hex() + '"'
+        if c == "[":
+            pos += 1
+            return "[" + ",".join(seq("]")) + "]"
+        if c == "(":
+            pos += 1
+            return "(" + ",".join(seq(")")) + ")"
+        m = num.match(s, pos)
+        if m:
+            pos = m.end()
+            return m.group(0)
+        m = ident.match(s, pos)
+        name = m.group(0)
+        pos = m.end()
+        ws()
+        if pos < n and s[pos] == "(":
+            pos += 1
+            return name + "(" + ",".join(seq(")")) + ")"
+        if pos < n and s[pos] == "{":
+            pos += 1
+            items = []
+            while True:
+                ws()
+                if s[pos] == "}":
+                    pos += 1
+                    break
+                m = field.match(s, pos)
+                pos = m.end()
+                items.append(value())
+                ws()
+                if s[pos] == ",":
+                    pos += 1
+            return name + ("(" + ",".join(items) + ")" if items else "")
+        return name
+
+    return value()
+
+
+def run_both_expr(gv, gmodel, hdr, texts):
+    impl = common.run_harness(gv, "expr", [{"id": i, "hex": hx(t)} for i, t in enumerate(texts)], timeout=900)
+    model = common.run_model(gmodel, "expr", hdr + [hx(t) for t in texts], timeout=900)
+    res = []
+    for i, t in enumerate(texts):
+        r = impl[i]
+        if "out" not in r:
+            il = "ABORT %s" % r.get("abort")
+        else:
+            o = r["out"].split(" ")
+            if o[0] == "OK":
+                try:
+                    il = "OK %s %s" % (o[1], canon_debug(bytes.fromhex(o[2]).decode("utf-8")))
+                except Exception as ex:  # noqa
+                    il = "OK %s <unreadable Debug text: %s>" % (o[1], ex)
+            elif o[0] == "ERR":
+                il = "ERR"
+            elif o[0] == "PANIC":
+                il = "PANIC " + bytes.fromhex(o[1]).decode("utf-8", "replace")[:200] if len(o) > 1 else "PANIC"
+            else:
+                il = o[0]
+        ml = model[i] if i < len(model) else "MISSING D0"
+        body, _, d = ml.rpartition(" D")
+        res.append((il, body, int(d) if d.isdigit() else -1))
+    return res
+
+
+def expr_bad(il, ml):
+    if il.startswith("PANIC") or il.startswith("ABORT"):
+        return True
+    if ml == "UNSUP":
+        return False
+    return il != ml
+
+
+def stage_expr(ctx, rng, gv, gmodel, hdr):
+    n = {"quick": 2500, "thorough": 30000}[ctx["tier"]]
+    cases = []
+    valid = [p_expr(rng) for _ in range(n)]
+    cases += [("expr", t) for t in valid]
+    cases += [("soup", p_soup(rng)) for _ in range(n)]
+    cases += [("mutation", p_mutate(rng, t)) for t in valid]
+    cases += [("deep", t) for t in p_deep(ctx["tier"])]
+    texts = [t for _, t in cases]
+    res = run_both_expr(gv, gmodel, hdr, texts)
+    viol = []
+    stats = {"by_generator": {}, "outcomes": {"ok": 0, "err": 0, "unsup": 0, "lexerr": 0}, "max_depth": 0, "ast_nodes_compared": 0}
+    distinct = set()
+    for (label, text), (il, ml, d) in zip(cases, res):
+        stats["by_generator"][label] = stats["by_generator"].get(label, 0) + 1
+        distinct.add(text)
+        stats["max_depth"] = max(stats["max_depth"], d)
+        if ml == "UNSUP":
+            stats["outcomes"]["unsup"] += 1
+        elif il.startswith("OK"):
+            stats["outcomes"]["ok"] += 1
+            stats["ast_nodes_compared"] += il.count("(") + il.count("[") + 1
+        elif il == "ERR":
+            stats["outcomes"]["err"] += 1
+        elif il == "LEXERR":
+            stats["outcomes"]["lexerr"] += 1
+        if expr_bad(il, ml) and len(viol) < 20:
+            def bad(sx):
+                (a, b, _), = run_both_expr(gv, gmodel, hdr, [sx])
+                return expr_bad(a, b)
+            small = shrink(text, bad)
+            (a, b, dd), = run_both_expr(gv, gmodel, hdr, [small])
+            what = ("Expr::parse panics / aborts: %s" % a[:200]) if (a.startswith("PANIC") or a.startswith("ABORT")) else \
+                   ("Expr::parse and model (coq/model/ParserSkel.v) disagree: impl %s | model %s" % (a[:160], b[:160]))
+            viol.append({"what": what, "no_input": False,
+                         "replay": {"kind": "expr", "hex": hx(small), "text": small[:300], "impl": a[:600], "model": b[:600], "generator": label}})
+    return {"viol": viol, "stats": stats, "n": len(cases), "distinct": len(distinct),
+            "sample": {"text": cases[5][1][:200], "impl": res[5][0][:300], "model_depth": res[5][2]}}
+
+
+
 def class_tables(gv):
     rc, out = common.sh([gv, "classes"], timeout=120)
     c = json.loads(out.strip().splitlines()[-1])
@@ -288,6 +566,8 @@ def run(ctx):
     classes, hdr = class_tables(gv)
     k = stage_lex(ctx, rng, gv, gmodel, hdr)
     out["violations"] += k["viol"]
+    e = stage_expr(ctx, rng, gv, gmodel, hdr)
+    out["violations"] += e["viol"]
     if not classes.get("alnum_is_alpha_or_numeric"):
         out["violations"].append({"what": "char::is_alphanumeric is not is_alphabetic || is_numeric in this std (assumption of model/Lexer.v)",
                                   "replay": {}, "no_input": True})
@@ -296,7 +576,7 @@ def run(ctx):
     if proof_broken:
         out["violations"].append({"what": "theorem(s) in %s no longer check" % PROPS,
                                   "replay": {"failed_at": pr.get("failed_at"), "log_tail": pr["log"][-1500:] if not pr["ok"] else "",
-                                             "assumption_problems": bad_assum, "audit": audit}, "no_input": not k["viol"]})
+                                             "assumption_problems": bad_assum, "audit": audit}, "no_input": not (k["viol"] or e["viol"])})
     st = k["stats"]
     out["coverage"] = {
         "obligations": len(obligations), "discharged": 0 if proof_broken else len(obligations),
@@ -307,9 +587,14 @@ def run(ctx):
                          "harness/src/bin/gv_lex.rs (catch_unwind, canonical token rendering), ocaml/lexer.ml (table lookup, printing), extraction",
                          "vlib/tables_lexer.py scanner (keyword table, precedences)"],
         "theorems": obligations,
-        "evaluations": k["n"], "distinct_nontrivial": k["distinct"],
+        "evaluations": k["n"] + e["n"], "distinct_nontrivial": k["distinct"] + e["distinct"],
         "rule": "one evaluation = one statement text tokenized by the real Tokenizer and by the extracted model, complete canonical token list (or error character) compared, start indices re-checked to tile the text; generators: sql grammar / token soup / adversarial (unterminated constructs at every position, 1-4 byte characters next to every delimiter, NUL, 10^5-character tokens, number shapes, block comments) / character mutations of the grammar texts",
-        "samples": [k["sample"]],
+        "samples": [k["sample"], e["sample"]],
+        "expr": {"texts": e["n"], "distinct": e["distinct"], "by_generator": e["stats"]["by_generator"], "outcomes": e["stats"]["outcomes"],
+                 "ast_nodes_compared": e["stats"]["ast_nodes_compared"], "max_model_depth": e["stats"]["max_depth"],
+                 "rule": "one evaluation = one expression text: real Tokenizer + Expr::<Raw>::parse (1 GiB stack thread, catch_unwind) against the extracted "
+                         "tokenizer + ParserSkel.parse_expr; compared: outcome class, parser index after the expression, the complete AST (derived Debug text "
+                         "canonicalised); texts on which the model answers PUnsup (subqueries, non-empty window definitions) are only checked for panics"},
         "by_generator": st["by_generator"], "outcomes": st["outcomes"], "tokens_compared": st["tokens"], "token_kinds_seen": st["kinds"],
         "tilings_checked": st["tiles_checked"], "longest_text_bytes": st["max_bytes"],
         "unicode_tables": {"alphabetic_ranges": len(classes["alpha"]), "numeric_ranges": len(classes["numeric"])},
